@@ -16,6 +16,7 @@ Python only renders inputs, moves bytes, splits lines into fields and counts.
 """
 import json
 import multiprocessing
+from vlib import core as _core
 import os
 import re
 import shutil
@@ -279,8 +280,7 @@ def replay_all(ctx, hs, tag, procs=16):
     args = [(harness, os.path.join(base, "%d" % i), h) for i, h in enumerate(hs)]
     if len(args) <= 4:
         return [run_history(a) for a in args]
-    with multiprocessing.Pool(procs) as pool:
-        return pool.map(run_history, args, chunksize=max(1, min(64, len(args) // (procs * 4))))
+    return _core.pool_map(run_history, args, procs, chunksize=max(1, min(64, len(args) // (procs * 4))))
 
 
 CONTRACT = ("C18_Exactly", "C18_Attributed", "C18_Complete", "NotStuck")
